@@ -60,9 +60,10 @@ def assemble(tpl_path, repo=REPO):
         if st.startswith('//@@ item '):
             kv = parse_kv(st[len('//@@ item '):])
             subs = []
-            if 'sub' in kv:
-                m = re.match(r'/(.*)/=>(.*)$', kv['sub'])
-                subs.append((m.group(1), m.group(2)))
+            for sk in ('sub', 'sub2', 'sub3', 'sub4'):
+                if sk in kv:
+                    m = re.match(r'/(.*)/=>(.*)$', kv[sk], re.S)
+                    subs.append((m.group(1), m.group(2)))
             txt, info = extract_item(repo, kv['file'], kv['kind'], kv['name'], subs)
             items.append(info)
             out.append('// extracted: %s %s  (%s:%d)' % (kv['kind'], kv['name'], kv['file'], info['lines'][0]))
@@ -135,7 +136,9 @@ def assemble(tpl_path, repo=REPO):
         else:
             out.append(ln)
             i += 1
-    return '\n'.join(out) + '\n', fns, items
+    # visibility is irrelevant to the proof: `pub(crate)` -> `pub` so that spec functions may mention every extracted item
+    text = re.sub(r'\bpub\s*\(\s*crate\s*\)', 'pub', '\n'.join(out) + '\n')
+    return text, fns, items
 
 
 CHEATS = [r'\bassume\s*\(', r'\badmit\s*\(', r'verifier::external_body', r'\bassume_specification\b',
